@@ -68,6 +68,10 @@ CLAIMED = {
             "bounded-exhaustive enumeration of binding constructs x scope chains, rope's scopes/name tables/lookups compared with a reference binder that is validated against CPython's symtable on every program",
             "40 binding atoms x 12 function/class nesting chains (depth 3) x outer-binding variations (uniform and independent per level) x 10 parameter kinds; per program: scope tree with line extents, owned names per scope, lookup() of every read name from its scope, holding scope per body line.",
             "binder vs symtable agreement is a precondition (HARNESS otherwise); lambda scopes not compared; PEP 709 inlining accounted for", "3/C15"),
+    "C14": ("exploration",
+            "bounded-exhaustive enumeration of texts (statement templates x literal/expression atoms, one and two statements) x every offset and line, compared with CPython's tokenize and ast",
+            "Texts from 18 statement templates x 40 atoms (all string prefixes and quote styles, escapes, f-strings with nesting, number spellings, unicode identifiers, keywords glued to literals, continuations, bracketed line breaks, semicolons, tabs) are fed to simplify.ignored_regions/real_code, SourceLinesAdapter, logical_lines and Worder; every offset / line / identifier character is compared with the tokenizer's tokens, NEWLINE-delimited logical lines and the ast attribute chains.",
+            "tokenize/ast of CPython 3.12 are the reference; identifier tokens inside f-string fields not used for Worder checks", "3/C14"),
 }
 
 PENDING_REASON = "check not built yet in this session (see DESIGN.md section 8 build order); nothing is claimed for it"
